@@ -974,7 +974,8 @@ impl CompositionGraph {
     ///
     /// This method panics if the provided node id is invalid.
     pub fn unexport(&mut self, node: NodeId) -> Result<(), UnexportError> {
-        let node = &mut self.graph[node.0];
+        let index = node.0;
+        let node = &mut self.graph[index];
         if let NodeKind::Definition = node.kind {
             return Err(UnexportError::MustExportDefinition);
         }
@@ -984,6 +985,9 @@ impl CompositionGraph {
             let removed = self.exports.swap_remove(&name);
             assert!(removed.is_some());
         }
+
+        // A node may have been exported under more than one name
+        self.exports.retain(|_, n| *n != index);
 
         Ok(())
     }
@@ -1022,7 +1026,8 @@ impl CompositionGraph {
             "removing node {index} from the graph",
             index = node.0.index()
         );
-        let node = self.graph.remove_node(node.0).expect("invalid node id");
+        let index = node.0;
+        let node = self.graph.remove_node(index).expect("invalid node id");
 
         // Remove any import entry
         if let Some(name) = node.import_name() {
@@ -1037,6 +1042,9 @@ impl CompositionGraph {
             let removed = self.exports.swap_remove(name);
             assert!(removed.is_some());
         }
+
+        // A node may have been exported under more than one name
+        self.exports.retain(|_, n| *n != index);
 
         if let NodeKind::Definition = node.kind {
             log::debug!(
